@@ -23,6 +23,7 @@ class Verifier(Engine):
         import vals as _v
         _v._cnt[0] = 0
         st = State()
+        st.assume(self.at_axiom())
         args = []
         for i, p in enumerate(fn.params):
             v = self.fresh(st, p['type'], 'p.' + p['name'])
@@ -239,6 +240,7 @@ class Verifier(Engine):
     def query(self, o, goals, timeout_ms, seed, race):
         s = z3.Solver()
         s.set('timeout', timeout_ms)
+        s.set('smt.auto_config', False)
         if seed: s.set('random_seed', seed % 1000)
         for f in o.pc:
             if o.kind == 'smoke' and self.has_quant(f): continue
@@ -305,7 +307,7 @@ def _solve_group(idxs):
     obs = [v.obls[i] for i in idxs]
     inc = None
     if len(obs) > 2:
-        inc = z3.Solver(); inc.set('timeout', 1000)
+        inc = z3.Solver(); inc.set('timeout', 1000); inc.set('smt.auto_config', False)
         for f in obs[0].pc: inc.add(f)
     for i, o in zip(idxs, obs):
         done = False
